@@ -30,6 +30,13 @@ type E2 interface{ N() }
 type I3 interface{ E1; E2 }
 type I4 interface{ E2; E1 }
 
+type R1 interface{ Next() R1; Val(R2) int }
+type R2 interface{ Val(R2) int; Next() R1 }
+type M1 interface{ ~int | ~int8; String() string }
+type M2 interface{ String() string; ~int8 | ~int }
+type K1 interface{ comparable; M() }
+type K2 interface{ M(); comparable }
+
 type C1 interface{ ~int | ~string }
 type C2 interface{ ~string | ~int }
 type C3 interface{ int | string }
@@ -89,6 +96,15 @@ var (
 	pp2 **int
 	fn1 func(func(int) int) func() int
 	fn2 func(func(int) int) func() int
+	ir1 interface{ Next() R1; Val(R2) int }
+	ir2 interface{ Val(R2) int; Next() R1 }
+	ch5 chan chan<- int
+	ch6 chan (chan<- int)
+	ch7 chan<- chan int
+	ch8 chan<- (chan int)
+	fv1 func(...int)
+	fv2 func([]int)
+	fv3 func(...int)
 )
 `
 
@@ -154,6 +170,11 @@ func buildUniverse() (*universe, error) {
 					add(fmt.Sprintf("%sList[[]string]#%d", tag, k), inst)
 				}
 			}
+		}
+		// tuples: distinct objects with identical element types
+		for k := 0; k < 2; k++ {
+			add(fmt.Sprintf("%stuple(int,string)#%d", tag, k), types.NewTuple(types.NewVar(token.NoPos, p, "", types.Typ[types.Int]), types.NewVar(token.NoPos, p, "x", types.Typ[types.String])))
+			add(fmt.Sprintf("%stuple()#%d", tag, k), types.NewTuple())
 		}
 		// aliases of structural types
 		for k, t := range []types.Type{types.NewSlice(types.Typ[types.Int]), types.NewMap(types.Typ[types.String], types.Typ[types.Int])} {
